@@ -61,6 +61,10 @@ def make_plan(seed: int, tier: str, opts: dict) -> dict:
             eps[j]["ending"] = "stop"
     if r.random() < 0.1:
         eps.insert(0, dict(eps_id=0, api="stop_only", nsteps=0, ending="stop", rtf=0, strategy={"name": "rr"}, sseed=1, fair_k=64))
+    if r.random() < 0.15:
+        # user-callback fault: a node's optional stop() hook reports failure (False) or forgets to return (None); the runtime documents a
+        # warning only, so stop() must still return and the next episode must still start
+        spec["nodes"][r.randrange(len(spec["nodes"]))]["stop_result"] = r.choice([False, None])
     for ep in eps:
         if r.random() < 0.2:
             ep["timeout"] = r.choice([30.0, 60.0])  # the optional timeout arguments must not change anything on a graph that makes progress
